@@ -169,3 +169,6 @@ LEVEL_TEXT = ("Each modelled member of basic_string_view (reading only through a
 LEVEL_NOTE = ("Trusted: Lean kernel + propext/Classical.choice/Quot.sound; the hand model's fidelity outside the explored inputs; "
               "g++-12/ASan; libstdc++ as oracle for spec validation. Members without a theorem yet are listed in evidence "
               "coverage.correspondence_only and are covered by the differential run only.")
+# members modelled and compared on every run but without a Lean theorem yet
+CORRESPONDENCE_ONLY = ["find", "rfind", "find_first_of", "find_last_of", "find_first_not_of", "find_last_not_of",
+                       "substr", "copy", "starts_with", "ends_with", "contains", "remove_prefix", "remove_suffix"]
